@@ -170,7 +170,7 @@ const HOSTILE_IDENTS: &[&str] = &[
     "y", "n", "yes", "no", "on", "off", "True", "False", "NULL", "Null", "TRUE", "_", "__", "e1", "nan", "NaN",
     "inf", "Infinity", "x0", "_1", "O", "l", "I", "nil", "t", "T", "Y", "N", "None", "undefined", "int", "str",
     "o0x1f", "_0", "A", "Z", "quote", "lambda", "define", "car", "cdr", "Top", "Block", "Integer", "Boolean",
-    "Variable", "name", "value", "Identifier", "Print", "format", "arguments", "members", "extends", "parameters",
+    "Variable", "name", "value", "Identifier", "Print", "format", "arguments", "members", "parameters", "Extends",
 ];
 
 const BOUNDARY: &[i64] = &[
